@@ -28,6 +28,9 @@ from . import boot
 
 VERIF = boot.VERIF
 KNOWN_FILE = os.path.join(VERIF, "known_findings.json")
+# evidence/ and replay/ go to /verif unless VERIF_OUT redirects them (runs against patched scratch copies of
+# the repository must not overwrite the evidence that stems from /repo itself)
+OUT = os.environ.get("VERIF_OUT") or VERIF
 
 
 # --------------------------------------------------------------------------- data
@@ -262,7 +265,7 @@ def _pool(jobs):
 
 
 def write_replay(prop_id, failure):
-    d = os.path.join(VERIF, "replay", prop_id)
+    d = os.path.join(OUT, "replay", prop_id)
     os.makedirs(d, exist_ok=True)
     path = os.path.join(d, f"{h64(failure['spec'])}.json")
     with open(path, "w") as f:
@@ -305,8 +308,8 @@ def write_evidence(check, tier, seed, stats, wall, violations, extra_cov=None):
         "wall_s": round(wall, 2),
         "violations": int(violations),
     }
-    os.makedirs(os.path.join(VERIF, "evidence"), exist_ok=True)
-    path = os.path.join(VERIF, "evidence", f"{check.id}.json")
+    os.makedirs(os.path.join(OUT, "evidence"), exist_ok=True)
+    path = os.path.join(OUT, "evidence", f"{check.id}.json")
     tmp = path + ".tmp"
     with open(tmp, "w") as f:
         json.dump(ev, f, indent=1, default=repr)
@@ -428,7 +431,7 @@ def main(modname):
             for v in uniq[:10]:
                 path = write_replay(check.id, v)
                 print(f"  {v.get('signature')}: {v['message'][:400]}")
-                print(f"VIOLATION property={check.id} replay={os.path.relpath(path, VERIF)}")
+                print(f"VIOLATION property={check.id} replay={os.path.relpath(path, VERIF) if OUT == VERIF else path}")
             return 1
         return 0
     except SystemExit:
